@@ -1,10 +1,13 @@
 #!/bin/bash
 # tools/mutate.sh <PROP> <file-in-repo> <sed-expr> : apply a one-line change to /repo, run the quick check, revert
+# (the evidence file is saved and restored: evidence must come from the unchanged tree)
 prop=$1; file=$2; expr=$3
 cd /repo || exit 2
 git diff --quiet || { echo "repo dirty"; exit 2; }
 sed -i "$expr" "$file"
 if git diff --quiet; then echo "MUTATION DID NOT APPLY"; exit 2; fi
 git diff | grep '^[+-][^+-]' | head -4
-cd /verif && ./check "$prop" quick | grep -E "VIOLATION|evaluations|HARNESS|KNOWN" | head -5
+cp /verif/evidence/$prop.json /tmp/ev_$prop.json 2>/dev/null
+cd /verif && ./check "$prop" quick | grep -E "VIOLATION|evaluations|HARNESS|KNOWN" | cut -c1-200 | head -5
+cp /tmp/ev_$prop.json /verif/evidence/$prop.json 2>/dev/null; rm -f /tmp/ev_$prop.json
 git -C /repo checkout -- .
